@@ -86,5 +86,5 @@ class C19(Prop):
         direct = H.Tag(c["f"], *args, _add_ws=t.add_ws if isinstance(t.add_ws, bool) else True, **{k: v for k, v in kw.items() if k != "_add_ws"})
         rec["eq"] = bool(isinstance(t, H.Tag) and t == direct and list(t.attrs.items()) == list(direct.attrs.items())
                          and [type(x) for x in t.children] == [type(x) for x in direct.children]
-                         and t.get_html_string() == direct.get_html_string())
+                         and t.render()["html"] == direct.render()["html"])
         return rec
